@@ -501,12 +501,12 @@ func TestProp(t *testing.T) {
 	defer r.Finish()
 	r.Rule("cases = one call group of the map helpers, each executed 4 times on freshly built maps (iteration orders sampled): Keys/Values/MapCollection as multisets, MapValues, MapKeys (injective and colliding), MapEvery/MapSome/MapContains, MapUnique, Find (smallest qualifying key)/FindKey/FindByKey (some qualifying entry), Invert, Pick+Omit and PickBy+OmitBy as a partition of the original, FilterMap, Pluck, FilterMapCollection/Filter2DMapCollection (each qualifying map once, in order), PartitionMap, SliceToMap; non-trivial = a map with >= 2 entries resp. a collection with >= 2 maps; distinct by hash of the case")
 
-	keys := []string{"a", "b", "c", "d"}
+	keys := []string{"", "a", "b", "c"} // incl. the zero key
 	core.Monitor(r, "map-sweep", 0, func(emit func(Case)) {
 		ms := allMaps(keys, []int{0, 1, 2}, r.Pick(3, 4))
 		var keyLists [][]string
 		keyLists = append(keyLists, []string{})
-		seq.Enum([]string{"a", "b", "c", "z"}, 3, func(k []string) { keyLists = append(keyLists, k) })
+		seq.Enum([]string{"", "a", "b", "z"}, 3, func(k []string) { keyLists = append(keyLists, k) })
 		for _, m := range ms {
 			emit(Case{Fn: "KeysValues", M: m})
 			emit(Case{Fn: "MapKeys", M: m})
